@@ -85,6 +85,27 @@ def make_cases(rng, tier, n):
             c["ops"] = first + conv + tail
             cases.append(c)
         stats["flow_run_idle"] = stats.get("flow_run_idle", 0) + 1
+    # a manifest of a few hundred KiB in the old schema (about 2000 entries) that also lists sub-directories; and many sub-directories
+    # read under a tight descriptor limit (every manifest that is opened is closed again)
+    init = [("dir", b"large")] + [("file", b"large/f%04d" % j, "g:%d:%d" % (j % 9, j % 4)) for j in range(1950)]
+    for j in range(30):
+        init += [("dir", b"large/sub%02d" % j), ("file", b"large/sub%02d/in.txt" % j, "g:%d:6" % (500 + j))]
+    grp = [("old-large", dict(id="old-large", init=init, stages=[(b"large.yaml", dict(cmd=b"", wd=b".", out=[(b"large", "d")]))], ops=[], cache="rel", timeout=300))]
+    init = [("dir", b"fan")]
+    for j in range(700):
+        init += [("dir", b"fan/s%03d" % j), ("file", b"fan/s%03d/u.txt" % j, "g:%d:5" % (j % 50))]
+    grp.append(("old-fds", dict(id="old-fds", init=init, stages=[(b"fan.yaml", dict(cmd=b"", wd=b".", out=[(b"fan", "d")]))], ops=[], cache="rel", timeout=300,
+                                env=dict(VERIF_NOFILE="300"))))
+    for gid, base in grp:
+        for twin, conv in (("old", [("oldschema",)]), ("new", [])):
+            c = copy.deepcopy(base)
+            c["id"] = gid + "-" + twin
+            c["group"] = gid
+            c["twin"] = twin
+            c["flow"] = "checkout"
+            c["ops"] = [("commit", "l", [])] + conv + [("status", []), ("clone", []), ("checkout", "l" if gid == "old-large" else "c", False, []), ("status", [])]
+            cases.append(c)
+        stats["group_" + gid] = 1
     if tier == "thorough" or n >= 900:
         # a manifest of several MiB: a flat directory of 30000 entries (an old-schema entry is about half as long again as a
         # current one, so any size limit tuned to the current schema bites the old one first)
